@@ -179,3 +179,67 @@ def keygen_reuse(res, prop: str):
             if ktype not in kind:
                 res.spec_failures.append({"reuse": "keygen", "position": k, "request": [ktype, enc, pf, pubf], "file_holds": kind,
                                           "what": f"asked for a {ktype} key, the private key file written by a reused generator holds a {kind} key"})
+
+
+def signature_value_sweep(res, envelope_bytes: bytes, prop: str, n: int):
+    """the signature value is random: sign the same envelope again and again (ECDSA P-256 / P-384 / P-521, both EdDSA forms) so that values with every
+    leading byte occur - among them those that look like the start of another encoding (0x30 DER sequence, 0x02, 0x00, 0x80, 0xff); each must be
+    attached as it is and verify"""
+    import cbor2
+    from collections import Counter
+    from suit_generator.suit_sign_script_base import SuitSignAlgorithms, SignatureAlreadyPresentActions
+    from . import cbortree as ct
+    mod = _load(common.REPO / "ncs" / "sign_script.py", "verif_sign_sweep")
+    kms = str(common.REPO / "ncs" / "basic_kms.py")
+    env = cbor2.loads(envelope_bytes)
+    firsts = Counter()
+    plan = [("es-256", "key_p256", 0.7), ("es-384", "key_p384", 0.2), ("es-521", "key_p521", 0.05), ("eddsa", "key_ed25519", 0.05)]
+    for alg, key_name, share in plan:
+        key = signing.load_private(key_name)
+        failures = 0
+        for i in range(max(3, int(n * share))):
+            res.case(["signature-sweep", prop, alg, i], nontrivial=(i == 0))
+            try:
+                out = cbor2.dumps(mod.Signer().sign_envelope(cbor2.loads(envelope_bytes), key_name, 0x10, SuitSignAlgorithms(alg), signing.keys_dir(), kms,
+                                                             SignatureAlreadyPresentActions("error")))
+            except BaseException as e:  # noqa
+                res.spec_failures.append({"sweep": alg, "attempt": i, "what": f"signing the same valid envelope failed at attempt {i} (the outcome depends on the random signature value): "
+                                                                               + type(e).__name__ + ": " + str(e)[:120]})
+                failures += 1
+                if failures >= 2:
+                    break
+                continue
+            v = _verify_last_block(out, key, alg if alg != "es-384" and alg != "es-521" else alg)
+            root = ct.decode(out)
+            wrapper = next(vv for kk, vv in root.children[0].children if kk.major == 0 and kk.arg == 2)
+            sig = ct.decode(ct.decode(wrapper.data).children[-1].data).children[0].children[3].data
+            firsts[sig[0]] += 1
+            width = {"es-256": 64, "es-384": 96, "es-521": 132, "eddsa": 64}[alg]
+            if len(sig) != width:
+                res.spec_failures.append({"sweep": alg, "attempt": i, "signature": sig.hex(), "what": f"the signature value has {len(sig)} bytes, not the fixed {width}"})
+            elif alg.startswith("es-") and not _verify_ecdsa(key, sig, out) or (alg == "eddsa" and v is not True):
+                res.spec_failures.append({"sweep": alg, "attempt": i, "signature": sig.hex(), "what": "a signature value attached by the signer does not verify"})
+            if len(res.spec_failures) > 5:
+                return
+    res.count("signature-sweep:distinct-leading-bytes", len(firsts))
+    res.count("signature-sweep:leading-0x30", firsts.get(0x30, 0))
+
+
+def _verify_ecdsa(key, sig, envelope_bytes):
+    from . import cbortree as ct
+    from cryptography.exceptions import InvalidSignature
+    from cryptography.hazmat.primitives import hashes
+    from cryptography.hazmat.primitives.asymmetric import ec
+    from cryptography.hazmat.primitives.asymmetric.utils import encode_dss_signature
+    root = ct.decode(envelope_bytes)
+    wrapper = next(v for k, v in root.children[0].children if k.major == 0 and k.arg == 2)
+    items = ct.decode(wrapper.data).children
+    arr = ct.decode(items[-1].data).children[0].children
+    msg = ct.encode(ct.arr([ct.tstr("Signature1"), ct.bstr(arr[0].data), ct.bstr(b""), ct.bstr(items[0].data)]))
+    h = {256: hashes.SHA256(), 384: hashes.SHA384(), 521: hashes.SHA512()}[key.curve.key_size]
+    w = len(sig) // 2
+    try:
+        key.public_key().verify(encode_dss_signature(int.from_bytes(sig[:w], "big"), int.from_bytes(sig[w:], "big")), msg, ec.ECDSA(h))
+        return True
+    except InvalidSignature:
+        return False
